@@ -18,7 +18,7 @@ def run(tier, seed, work, replay):
     if not neg["violated"]:
         raise E.Inconclusive("negative control (reader without the mutex) found no violation")
     rng = random.Random(seed)
-    passes = ["right", "wrong", "empty", "prefix", "suffix", "upper"]
+    passes = ["right", "wrong", "empty", "prefix", "suffix", "upper", "trailingnl", "leadingsp", "crlf"]
     cases = [{"kind": "sweep"}]
     inj = [{"pass": p, "cert": c, "tls": t, "via": "http"} for p in passes for c in (True, False) for t in (True, False)]
     inj += [{"pass": p, "cert": False, "tls": False, "via": "aws"} for p in passes]
